@@ -506,6 +506,11 @@ func (f *Flat) bindOf(n *GNode, c *ast.CallExpr) callSite {
 				cs.Kind = "blank"
 			} else if o := objOf(info, l); o != nil {
 				cs.Kind, cs.ErrVar = "assigned", o
+			} else if ix, ok := ast.Unparen(l).(*ast.IndexExpr); ok {
+				// one slot of a list of errors that is joined afterwards: errs[i] = u.deleteFile(ctx, file)
+				if lo := objOf(info, ix.X); lo != nil && isErrListType(lo.Type()) {
+					cs.Kind, cs.ErrVar = "assigned", lo
+				}
 			}
 		} else if len(s.Rhs) == len(s.Lhs) {
 			for i, r := range s.Rhs {
@@ -515,6 +520,11 @@ func (f *Flat) bindOf(n *GNode, c *ast.CallExpr) callSite {
 						cs.Kind = "blank"
 					} else if o := objOf(info, l); o != nil {
 						cs.Kind, cs.ErrVar = "assigned", o
+					} else if ix, ok := ast.Unparen(l).(*ast.IndexExpr); ok {
+						// one slot of a list of errors that is joined afterwards: errs[i] = u.deleteFile(ctx, file)
+						if lo := objOf(info, ix.X); lo != nil && isErrListType(lo.Type()) {
+							cs.Kind, cs.ErrVar = "assigned", lo
+						}
 					}
 				}
 			}
